@@ -10,7 +10,7 @@ from .engine import SymNum, SymInt, SymReal, SymBool, SymFrac, Lin, ModelGap, cu
 
 
 def is_sym(x):
-    return isinstance(x, (SymNum, SymBool)) or getattr(x, "__symbolic__", False)
+    return isinstance(x, (SymNum, SymBool)) or getattr(x, "__symbolic__", False) is True
 
 
 # ----------------------------------------------------------------------------------------
@@ -225,6 +225,10 @@ def shim_isinstance(x, t):
 def shim_str(x=""):
     if isinstance(x, SymNum):
         return cur().format_hole(x, "str")
+    if isinstance(x, SymFrac):
+        return cur().format_hole(x.mat(), "str")
+    if getattr(x, "__symbolic__", False) and hasattr(x, "cps"):
+        return x
     return builtins.str(x)
 
 
